@@ -349,11 +349,26 @@ def install_mutations(w):
         r = c.result
         if isinstance(v, VNone):
             return r.length == 0
+        ex = c.ex
         nodes = c["nodes"]
         n, k = z3.Const("n!cs", N), z3.Int("k!cs")
-        in_nodes = z3.Exists([k], z3.And(0 <= k, k < nodes.length, sel(nodes.arrs[0], k) == n))
-        in_res = z3.Exists([k], z3.And(0 <= k, k < r.length, sel(r.arrs[0], k) == n))
-        return z3.And(r.length >= 0, z3.ForAll([n], in_res == z3.And(in_nodes, reads(c.ex, n, v.term))))
+        j = z3.Int("j!cs")
+        in_nodes = lambda t: z3.Exists([j], z3.And(0 <= j, j < nodes.length, sel(nodes.arrs[0], j) == t))  # noqa: E731
+        # "exactly the nodes of `nodes` reading the value", written with a Skolem function (position of a consumer in the
+        # result) so that instantiation is triggered by ground terms: equivalent to  forall n. (n in result) == (n in nodes and n reads v)
+        pos = z3.Function(ex.fresh_name("consumer_pos"), N, z3.IntSort())
+        ins_len = ex.heap_arrays(NODE, "inputs")[1]
+        rr = z3.Const(ex.fresh_name("consumers"), r.arrs[0].sort())      # alias: the result term may contain ite, which z3 rejects in patterns
+        ex.assume(rr == r.arrs[0])
+        r_k = sel(rr, k)
+        def forall(vs, body, pats):
+            try:
+                return z3.ForAll(vs, body, patterns=pats)
+            except z3.Z3Exception:      # a pattern z3 rejects (e.g. over a lambda-defined array): let it choose
+                return z3.ForAll(vs, body)
+        return z3.And(r.length >= 0,
+                      forall([k], z3.Implies(z3.And(0 <= k, k < r.length), z3.And(in_nodes(r_k), reads(ex, r_k, v.term))), [r_k]),
+                      forall([n], z3.Implies(z3.And(in_nodes(n), reads(ex, n, v.term)), z3.And(0 <= pos(n), pos(n) < r.length, sel(rr, pos(n)) == n)), [sel(ins_len, n), pos(n)]))
     w.add_contract(Contract(f"{MG}:_consumer_nodes", params={"nodes": Seq(Ref(NODE)), "value_or_name": Opt(Ref(VALUE))}, ret=Seq(Ref(NODE)), assumed=True, uf=True, reads_heap=True,
                             ensures=[("exactly_the_nodes_reading_the_value", post_consumers)],
                             note="the nodes of `nodes` that have the value among their inputs (value names are unique after NameFixPass, so the name-based fallback agrees)"))
